@@ -1,0 +1,52 @@
+//! Read-only observation hook used by external runtime-verification harnesses.
+//!
+//! Only compiled with `--cfg priority_queue_verif`; it adds no behaviour and
+//! performs checked accesses only, so it can be called on a corrupted store.
+
+#[cfg(not(feature = "std"))]
+use alloc::vec::Vec;
+
+use crate::store::Store;
+use crate::{DoublePriorityQueue, PriorityQueue};
+
+/// A copy of the internal index tables plus references to the stored elements.
+pub struct VerifSnapshot<'a, I, P> {
+    /// The size counter of the store (what `len()` reports)
+    pub size: usize,
+    /// The number of entries of the map
+    pub map_len: usize,
+    /// heap position -> slot index (the whole vector)
+    pub heap: Vec<usize>,
+    /// slot index -> heap position (the whole vector)
+    pub qp: Vec<usize>,
+    /// slot index -> stored item and priority
+    pub entries: Vec<(&'a I, &'a P)>,
+}
+
+impl<I, P, H> Store<I, P, H> {
+    fn verif_snapshot(&self) -> VerifSnapshot<'_, I, P> {
+        VerifSnapshot {
+            size: self.size,
+            map_len: self.map.len(),
+            heap: self.heap.iter().map(|i| i.0).collect(),
+            qp: self.qp.iter().map(|p| p.0).collect(),
+            entries: (0..self.map.len())
+                .filter_map(|i| self.map.get_index(i))
+                .collect(),
+        }
+    }
+}
+
+impl<I, P, H> PriorityQueue<I, P, H> {
+    /// Read-only snapshot of the internal state
+    pub fn verif_snapshot(&self) -> VerifSnapshot<'_, I, P> {
+        self.store.verif_snapshot()
+    }
+}
+
+impl<I, P, H> DoublePriorityQueue<I, P, H> {
+    /// Read-only snapshot of the internal state
+    pub fn verif_snapshot(&self) -> VerifSnapshot<'_, I, P> {
+        self.store.verif_snapshot()
+    }
+}
